@@ -26,7 +26,7 @@ CLAIMS = {
         'model_checking',
         'TLC checks the C22 monitors (after every request the keyring file, loaded through the agent\'s own loader, yields exactly the live key set '
         'with the same primary key; a rejected request changes neither keyring nor file) exhaustively on the keyring part of spec/KeyOps.tla (all '
-        'request sequences up to the bound over install/use/remove x {valid keys of 16, 24 and 32 bytes, two wrong lengths, undecodable and empty request, non-base64 API '
+        'request sequences up to the bound over the interleaved read-only list-keys query and install/use/remove x {valid keys of 16, 24 and 32 bytes, two wrong lengths, undecodable and empty request, non-base64 API '
         'argument} from three initial keyrings) and on every step of TLC-simulated request sequences plus all request pairs executed on a real '
         'quiet node with Keyring + KeyringFile: the real internal queries are delivered in wire format through NotifyMsg, a step ends when its '
         'reply packet is captured on the transport, the file is reloaded with agent.Create(KeyringFile), and TLC validates each observation '
@@ -426,9 +426,14 @@ def run_c22(ctx, replay=None):
             if s and s[0]["a"] == "kinit" and len(s) > 1:
                 inputs.append({"init": s[0]["init"], "steps": s[1:]})
         # plus every pair of requests from every initial keyring (quick: a seeded third of them)
-        ops = [{"a": "kop", "op": o, "k": k} for o in ("install", "use", "remove") for k in range(1, 9)]
-        pairs = [{"init": init, "steps": [a, b]} for init in ([1], [2, 1], [1, 2, 3]) for a in ops for b in ops]
-        inputs += pairs if thorough else rng.sample(pairs, len(pairs) // 3)
+        ops = [{"a": "kop", "op": o, "k": k} for o in ("install", "use", "remove") for k in range(1, 9)] + [{"a": "kop", "op": "list", "k": 0}]
+        pairs = [{"init": init, "steps": [a, b]} for init in ([1], [2, 1], [1, 2, 3], [3, 1]) for a in ops for b in ops]
+        if thorough:
+            inputs += pairs
+        else:      # every pair with a list-keys query in it, a seeded third of the others
+            with_list = [p for p in pairs if any(st["op"] == "list" for st in p["steps"])]
+            rest = [p for p in pairs if not any(st["op"] == "list" for st in p["steps"])]
+            inputs += with_list + rng.sample(rest, len(rest) // 3)
         for i, x in enumerate(inputs):
             x["id"] = i
     tp, summ = key_drive(ctx, binary, "keyring", inputs, "a")
